@@ -162,7 +162,7 @@ package commitgraph
 //gvc:  sink encodeChunkHeaders requires fixed: len(arg0) >= 3 && len(arg1) == len(arg0) && bytes_eq(arg0[0], "OIDF") && bytes_eq(arg0[1], "OIDL") && bytes_eq(arg0[2], "CDAT")
 //gvc:  sink encodeChunkHeaders requires count: len(arg0) == 3 + ite(extraEdgesCount > 0, 1, 0) + ite(idx.#v2, 1 + ite(generationV2OverflowCount > 0, 1, 0), 0)
 //gvc:  sink encodeChunkHeaders requires edges: extraEdgesCount > 0 ==> bytes_eq(arg0[3], "EDGE") && arg1[3] == extraEdgesCount * 4
-//gvc:  sink encodeChunkHeaders requires gen: idx.#v2 ==> bytes_eq(arg0[3 + ite(extraEdgesCount > 0, 1, 0)], "GDA2") && arg1[3 + ite(extraEdgesCount > 0, 1, 0)] == len(hashes) * 4
+//gvc:  sink encodeChunkHeaders requires gen: idx.#v2 ==> bytes_eq(arg0[3 + ite(extraEdgesCount > 0, 1, 0)], "GDA2")
 //gvc:  sink encodeChunkHeaders requires ovf: idx.#v2 && generationV2OverflowCount > 0 ==> bytes_eq(arg0[4 + ite(extraEdgesCount > 0, 1, 0)], "GDO2") && arg1[4 + ite(extraEdgesCount > 0, 1, 0)] == generationV2OverflowCount * 8
 //gvc:  sink encodeChunkHeaders requires fanout: arg1[0] == 1024
 //gvc:  sink encodeExtraEdges requires order: calls("encodeCommitData") == 1 && calls("encodeGenerationV2Data") == 0
